@@ -195,7 +195,9 @@ def frameMatches (o : OFrame) (f : SFrame) : Bool :=
   | .ka, .ka => true
   | .pong, .pong => true
   | .connError, .connError => true
-  | .res id g ev, .result id' g' ev' => id == id' && g == Int.ofNat g' && ev == ev'
+  | .res id g ev, .result id' g' ev' =>
+    -- g = -1: the payload is an error that does not name its operation (syntax error, cancelled context)
+    id == id' && (g == -1 || (g == Int.ofNat g' && ev == ev'))
   | .comp id, .complete id' _ => id == id'
   | _, _ => false
 
@@ -231,6 +233,11 @@ def checkPrefix (what : String) (obs : List OFrame) (exp : List SFrame) (must : 
       else some s!"{what}: message {n} observed {showO o}, the model has {showS f}"
   go 0 obs exp
 
+def isSubseq {α : Type} [BEq α] : List α → List α → Bool
+  | [], _ => true
+  | _ :: _, [] => false
+  | a :: as, b :: bs => if a == b then isSubseq as bs else isSubseq (a :: as) bs
+
 structure Verdict where
   ok : Bool
   reason : String
@@ -255,6 +262,8 @@ def accept (cfg : Cfg) (inputs : List Input) (ending : Ending) (obs : Obs) : Ver
   let log := sFin.log
   let codes :=
     (log.filterMap fun | .closeFrame c => some c | _ => none) ++ (if sFin.closeRecv then [1000] else [])
+      -- frames may still have been in flight when CloseHijackedConnections began to close
+      ++ (if ending == .sclose then [1000] else [])
   let mk (ok : Bool) (reason : String) : Verdict :=
     { ok, reason, expWire := wire.map (·.val), expExecs := execs.map (·.val), codes }
   match tr.err with
@@ -289,10 +298,12 @@ def accept (cfg : Cfg) (inputs : List Input) (ending : Ending) (obs : Obs) : Ver
   let mustE := execs.zipIdx.foldl (fun acc p =>
       if p.1.idx < tr.lastSync || (ending == .await && p.1.idx ≤ trig && p.1.idx < n) then p.2 + 1 else acc) 0
   let expE := execs.map (·.val)
-  if !(obs.execs.length ≤ expE.length && expE.take obs.execs.length == obs.execs) then
-    mk false s!"resolver invocations {repr obs.execs} are not a prefix of the model's {repr expE}"
-  else if obs.execs.length < mustE then
-    mk false s!"only {obs.execs.length} resolver invocation(s) observed, the model requires at least {mustE}"
+  -- the first mustE are there in order; what follows is a subsequence of the rest (a query that
+  -- arrives after the context was cancelled is answered without its resolver being called)
+  if obs.execs.take mustE != expE.take mustE then
+    mk false s!"resolver invocations {repr obs.execs}: the model requires {repr (expE.take mustE)} first"
+  else if !isSubseq (obs.execs.drop mustE) (expE.drop mustE) then
+    mk false s!"resolver invocations {repr obs.execs} are not a sub-sequence of the model's {repr expE}"
   else
   -- cleanup
   let created := obs.execs.filterMap fun p => if p.2 == .subscription then some p.1 else none
